@@ -436,6 +436,10 @@ func genCase(r *rand.Rand, idx int) *Case {
 				continue
 			}
 			seen[s.SpanID] = true
+			if i > 0 && len(c.Spans) > 0 && r.Intn(6) == 0 {
+				// the other half of a shared span: same span id, its own row (start time, name)
+				s.SpanID = c.Spans[r.Intn(len(c.Spans))].SpanID
+			}
 			if r.Intn(3) == 0 {
 				s.ParentID = rdcat.HexID(r, 8)
 			}
